@@ -95,13 +95,30 @@ def battery(quick=True):
                 cfg = Y.Configuration.create(**cfg_kw)
                 cf = Y.crosscorrelate(cfg, cat, unk, ref_rand=rnd)[0]
                 hist = Y.HistData.from_catalog(cat, cfg)
-                return cf.dd.counts.counts, cf.rd.counts.counts, cf.dd.sum_weights.sum_weights1, hist.data, hist.samples
+                # result I/O: the root writes, everybody reads back through a broadcast
+                base = paths[0] + "_io"
+                cf.to_file(base + ".hdf")
+                cf2 = Y.CorrFunc.from_file(base + ".hdf")
+                cfg.to_file(base + ".yml")
+                cfg2 = Y.Configuration.from_file(base + ".yml")
+                cd = cf.sample()
+                cd.to_files(base + "_cd")
+                cd2 = Y.CorrData.from_files(base + "_cd")
+                # only the root's measurement is meaningful; what every rank reads back must be the root's result
+                io = (cf2.dd.counts.counts, cf2.rd.counts.counts, bool(cfg2 == cfg), cd2.data, cd2.samples.shape, cd.data if rank == 0 else None)
+                return cf.dd.counts.counts, cf.rd.counts.counts, cf.dd.sum_weights.sum_weights1, hist.data, hist.samples, io
             status, res, err, world = mpi_sim.run_world(size, main2, sync=sync, seed=1, timeout=120)
-            name = f"trees+crosscorrelate+histogram[size={size},{'synchronous' if sync else 'eager'}]"
+            name = f"trees+crosscorrelate+histogram+result_io[size={size},{'synchronous' if sync else 'eager'}]"
             if status != "ok":
                 out.append((name, False, f"{status}: {dict(list(err.items())[:2])}"))
                 continue
-            dd, rd, sw, hd, hs = res[0]
+            dd, rd, sw, hd, hs, _ = res[0]
+            root_cd = res[0][5][5]
+            bad_io = [q for q, r in res.items() if not (np.array_equal(r[5][0], dd) and np.array_equal(r[5][1], rd) and r[5][2]
+                                                         and np.allclose(r[5][3], root_cd, atol=1e-6, equal_nan=True) and r[5][4] == res[0][5][4])]
+            if bad_io:
+                out.append((name, False, f"ranks {bad_io} did not read back what the root wrote"))
+                continue
             ok = (np.allclose(dd, ref_cf.dd.counts.counts) and np.allclose(rd, ref_cf.rd.counts.counts) and np.allclose(sw, ref_cf.dd.sum_weights.sum_weights1)
                   and np.allclose(hd, ref_hist.data) and np.allclose(hs, ref_hist.samples))
             out.append((name, bool(ok), "" if ok else "root pair counts / histogram differ from the single-process run"))
